@@ -161,6 +161,20 @@ pub fn fail_all_on_this_thread(errno: Option<i32>) -> usize {
     TL_FAILED.with(|c| c.get())
 }
 thread_local! {
+    static WALL_MODE: Cell<u8> = const { Cell::new(0) };
+    static WALL_READS: Cell<u64> = const { Cell::new(0) };
+}
+/// Wall clock (CLOCK_REALTIME) seen by the calling thread: 0 real, 1 every reading an hour earlier
+/// than the previous one, 2 standing still.
+pub fn wall_clock_mode(mode: u8) {
+    WALL_MODE.with(|c| c.set(mode));
+    WALL_READS.with(|c| c.set(0));
+}
+pub fn wall_clock_reads() -> u64 {
+    WALL_READS.with(|c| c.get())
+}
+
+thread_local! {
     /// (n, seen): fail the n-th read-path call (open of an existing store file for reading, mmap of
     /// a store file) issued by this thread; n = 0 only counts
     static TL_READ_FAULT: Cell<Option<(usize, usize)>> = const { Cell::new(None) };
@@ -688,6 +702,23 @@ pub unsafe extern "C" fn pthread_setname_np(t: libc::pthread_t, name: *const c_c
 
 #[no_mangle]
 pub unsafe extern "C" fn clock_gettime(clk: libc::clockid_t, ts: *mut libc::timespec) -> c_int {
+    if clk == libc::CLOCK_REALTIME && !ts.is_null() {
+        // the wall clock as an owned environment answer (entry timestamps come from it)
+        let mode = WALL_MODE.try_with(|c| c.get()).unwrap_or(0);
+        if mode != 0 {
+            let k = WALL_READS.try_with(|c| {
+                c.set(c.get() + 1);
+                c.get()
+            }).unwrap_or(1) as i64;
+            let t0: i64 = 2_000_000_000;
+            (*ts).tv_sec = match mode {
+                1 => t0 - 3600 * k, // every reading is an hour EARLIER than the one before
+                _ => t0,           // the clock stands still
+            };
+            (*ts).tv_nsec = 0;
+            return 0;
+        }
+    }
     let r = libc::syscall(libc::SYS_clock_gettime, clk, ts) as c_int;
     if r == 0 && clk == libc::CLOCK_MONOTONIC && VIRT.try_with(|v| v.get()).unwrap_or(false) {
         let off = VOFF_NS.load(Ordering::SeqCst);
